@@ -37,6 +37,7 @@ class Checker:
         self.evidence_dir = evidence_dir or os.path.join(VERIF, "evidence")
         self.quiet = quiet
         self.undecided = None
+        self.deferred = []
 
     # -- recording -----------------------------------------------------------
     def say(self, msg):
@@ -58,6 +59,20 @@ class Checker:
         if not ok:
             self.violations.append(rec)
         return bool(ok)
+
+    def attempt(self, fn, *args, **kw):
+        """run one group of obligations; an Undecided in it is deferred so that violations found by the other
+        groups are still reported (a violation outranks 'cannot decide' elsewhere)"""
+        try:
+            return fn(*args, **kw)
+        except Undecided as e:
+            self.deferred.append(e)
+            self.say("DEFER  undecided in %s: %s" % (getattr(fn, "__name__", "?"), e))
+            return None
+
+    def raise_deferred(self):
+        if self.deferred and not self.violations:
+            raise self.deferred[0]
 
     def info(self, msg):
         self.infos.append(msg)
